@@ -2,4 +2,8 @@ SPECIFICATION Spec
 CONSTANTS
   Nodes = {1, 2}
   MaxEvents = 3
+  Stricts = {TRUE, FALSE}
+  Excl = {0, 1, 2}
+  Fams = {"4", "6"}
+  Doms = {"data", "dns", "tcp"}
 INVARIANTS NoneOnlyWhenNone ExcludedNeverOffered OfferWhenPossible
